@@ -66,10 +66,16 @@ func (w *Writer) Finished() bool {
 	return w.finished
 }
 
+// maxPreallocObjects bounds what OnHeader reserves on the word of a pack
+// header.
+const maxPreallocObjects = 1 << 16
+
 // OnHeader implements packfile.Observer interface.
 func (w *Writer) OnHeader(count uint32) error {
 	w.count = count
-	w.objects = make(objects, 0, count)
+	// count is read from the pack header before any object is: reserve for
+	// a bounded number of entries only, the slice grows with what arrives.
+	w.objects = make(objects, 0, min(count, maxPreallocObjects))
 	return nil
 }
 
